@@ -576,7 +576,7 @@ func (p *Path) violationNow(kind, msg string) {
 		panic(pathEnd{endUnsupported, "solver unknown on violation path: " + msg})
 	}
 	p.viols = append(p.viols, &Violation{Kind: kind, Msg: msg, Where: p.where(), Inputs: p.modelInputs(model),
-		Prefix: append([]int(nil), p.taken...), Stubbed: p.usedStub})
+		Prefix: append([]int(nil), p.taken...), Stubbed: p.usedStub || len(p.threads) > 1})
 }
 
 // check asserts cond; a satisfiable negation is a violation. Execution continues on the passing side.
@@ -615,7 +615,7 @@ func (p *Path) check(cond *Term, kind, msg string) {
 	switch r {
 	case Sat:
 		p.viols = append(p.viols, &Violation{Kind: kind, Msg: msg, Where: p.where(), Inputs: p.modelInputs(model),
-			Prefix: append([]int(nil), p.taken...), Stubbed: p.usedStub})
+			Prefix: append([]int(nil), p.taken...), Stubbed: p.usedStub || len(p.threads) > 1})
 		// continue on the passing side if there is one
 		if p.wk.sol.CheckWith(cond, false) != Sat {
 			panic(pathEnd{endStop, "assertion fails on the whole path"})
